@@ -54,6 +54,21 @@ GROUPS = {
         nontrivial='batches that carry a segment size',
         functions=['Datagrams::take_segments'],
     ),
+    'ping_tracker_bx': dict(
+        unit='ping_tracker.rs', props=['C14'],
+        bounds=dict(quick=['5', '0'], thorough=['6', '0']),
+        space='every history of at most {0} steps drawn from: let 100 ms / 600 ms / 2.5 s / 6 s pass, send a ping, receive the pong of the latest ping, '
+              'of an older ping, or with garbage data — under a mock clock, max timeout 5 s',
+        nontrivial='histories with at least one ping and one pong',
+        functions=['PingTracker::{new, new_ping, new_ping_with_timeout, pong_received, ping_timeout}'],
+    ),
+    'dns_jitter_bx': dict(
+        unit='dns_jitter.rs', props=['C34'],
+        bounds=dict(quick=['3000', '0'], thorough=['200000', '0']),
+        space='every delay 0..={0} ms plus six huge values (around u64::MAX and the saturation point), each with the random source at 0, 1, 2, 7, MAX/2, MAX-1, MAX',
+        nontrivial='delays of at least 3 ms',
+        functions=['add_jitter'],
+    ),
     # second line behind the Verus unit builder_bind
     'builder_bind_bx': dict(
         unit='builder_bind.rs', props=['C20'],
